@@ -159,8 +159,13 @@ def main(argv):
         broken_obl.append("Lean module %s does not build: %s" % (mod, str(mod_ok)[:600]))
     axioms = binfo.get("axioms", {})
     discharged = 0
+    def ax_of(t):
+        for k, v in axioms.items():
+            if k == t or k.endswith("." + t):
+                return v
+        return None
     for t in thms:
-        ax = axioms.get("Moq." + t, axioms.get(t))
+        ax = ax_of(t)
         if mod_ok is True and ax is not None and set(ax) <= build.ALLOWED_AXIOMS:
             discharged += 1
         elif mod_ok is True:
@@ -273,7 +278,7 @@ def main(argv):
             "checker_cmd": "cd lean && lake build %s && lake env lean Audit.lean" % mod,
             "trusted_base": props.COMMON_TRUST + P["trust"],
             "theorems": thms,
-            "axioms": {t: axioms.get("Moq." + t, axioms.get(t)) for t in thms},
+            "axioms": {t: ax_of(t) for t in thms},
             "programs": n_programs, "disagreements_checked": len(disagreements),
             "samples": samples or [{"note": "no sample available"}],
             "broken_obligations": broken_obl,
